@@ -13,7 +13,8 @@ MKINDS = ['non-trashinfo-file', 'non-trashinfo-dir', 'empty', 'truncated',
           'info-without-payload', 'payload-without-info', 'dir-named-trashinfo',
           'only-header', 'nul-bytes', 'huge-line', 'path-empty',
           'dangling-link-info', 'link-to-dir-info', 'loop-link-info',
-          'link-to-good-info']
+          'link-to-good-info', 'long-name-payload-without-info',
+          'long-name-payload-without-info', 'payload-is-fifo']
 CMDS = ['list', 'restore-list', 'restore-each', 'rm', 'empty-days', 'empty']
 
 
@@ -99,6 +100,17 @@ def malformed_nodes(rng, t, kind, j, index, same_as=None):
     if kind == 'link-to-good-info':
         return [{'p': base + '/info/target-of-link-%d.txt' % j, 't': 'f', 'c': good},
                 {'p': ip, 't': 'l', 'to': 'target-of-link-%d.txt' % j}, pay]
+    if kind == 'long-name-payload-without-info':
+        # no .trashinfo can exist for it: name + '.trashinfo' exceeds NAME_MAX
+        ln = rng.choice([246, 250, 255, 245, 247])
+        unit = rng.choice(['o', 'é', 'long-'])
+        n2 = 'm%d-' % j + unit * 300
+        while len(n2.encode('utf-8')) > ln:
+            n2 = n2[:-1]
+        return [{'p': '%s/files/%s' % (base, n2), 't': rng.choice(['f', 'd']),
+                 **({'c': 'long orphan'} if False else {})}]
+    if kind == 'payload-is-fifo':
+        return [{'p': ip, 't': 'f', 'c': good}, {'p': pp, 't': 'p'}]
     if kind == 'path-empty':
         return [{'p': ip, 't': 'f', 'c': '[Trash Info]\nPath=\nDeletionDate=2003-03-03T03:03:03\n'}, pay]
     raise ValueError(kind)
